@@ -135,3 +135,26 @@ def exception_response(req: dict, code: int) -> bytes:
 
 def header_len(kind: str) -> int:
     return 5 if kind == 'rtu' else 9
+
+
+# ------------------------------------------------------------------ response well-formedness (twin of coq/Spec/Responses.v)
+def wf_response(spec: dict, d: bytes) -> bool:
+    """spec: dict(kind='rtu'|'tcp'|'aa55', op='read'|'write'|'multi'|'aa55', count/reg/val/rtype)"""
+    k, op = spec['kind'], spec['op']
+    if k == 'rtu':
+        if op == 'read':
+            n = 2 * spec['count']
+            return len(d) >= n + 7 and d[3] == 3 and d[4] == n and crc16(d[2:n + 5]) == d[n + 5] + 256 * d[n + 6]
+        fn = 6 if op == 'write' else 16
+        return len(d) >= 10 and d[3] == fn and d[4] * 256 + d[5] == spec['reg'] and s16(d[6] * 256 + d[7]) == spec['val'] \
+            and crc16(d[2:8]) == d[8] + 256 * d[9]
+    if k == 'tcp':
+        if op == 'read':
+            n = 2 * spec['count']
+            return len(d) >= n + 9 and d[7] == 3 and d[8] == n
+        fn = 6 if op == 'write' else 16
+        return len(d) >= 12 and d[7] == fn and d[8] * 256 + d[9] == spec['reg'] and s16(d[10] * 256 + d[11]) == spec['val']
+    if k == 'aa55':
+        return len(d) >= 9 and len(d) == d[6] + 9 and s16(d[4] * 256 + d[5]) == spec['rtype'] \
+            and sum(d[:-2]) & 0xFFFF == d[-2] * 256 + d[-1]
+    raise ValueError(spec)
